@@ -7,6 +7,8 @@ COMMON_ASSUME = [
 ]
 
 TIERS = {
+    "C18": {"quick": {"runs": 200, "budget_s": 90, "run_timeout_s": 400},
+            "thorough": {"runs": 3000, "budget_s": 900, "run_timeout_s": 900}},
     "C12": {"quick": {"runs": 300, "budget_s": 80, "run_timeout_s": 300},
             "thorough": {"runs": 5000, "budget_s": 900, "run_timeout_s": 600}},
     "C07": {"quick": {"runs": 400, "budget_s": 70, "run_timeout_s": 300},
@@ -37,6 +39,17 @@ TM_RULE = ("case = (generated program, argument, seeded history of trace transit
            "or a fault fired")
 
 META = {
+    "C18": {"LEVEL": "exploration",
+            "RULE": "case = (generated model, kernel in {mh, mala, hmc, composite saving several diagnostics, deterministic}, selection, "
+                    "(n_steps, burn_in, thinning, n_chains), regime SCRIPTED (chain vs Python-loop fold under the same script) or REAL "
+                    "(thinned vs slice of un-thinned, same key)); distinct = distinct (model shape, kernel, step grid, regime); "
+                    "non-trivial = more than one step and burn-in, thinning or several chains in play",
+            "COMPONENTS": {"real": ["genjax.inference.mcmc.chain/mh/mala/hmc", "genjax.state (state/save, scan collection)",
+                                    "genjax.pjax.modular_vmap (n_chains)", "genjax.core"],
+                           "stub": ["SCRIPTED runs: Seed key splitting and leaf samplers", "sim/jaxcompat.py"], "regimes": "SCRIPTED + REAL"},
+            "ASSUMPTIONS": COMMON_ASSUME + ["SCRIPTED comparisons use the cross-transformation tolerance (rtol 1e-5)"],
+            "REQUIRED_PROBES": {"quick": ["k_mh", "regime_scripted", "regime_real", "thin_gt1", "burn_gt0"],
+                                "thorough": ["k_mh", "k_mala", "k_hmc", "k_composite", "closed_form", "regime_scripted", "regime_real", "chains_2"]}},
     "C12": {"LEVEL": "exploration",
             "RULE": "case = (generated model, particle count N in 1..8, generated log-weight vector kind, method, SCRIPTED schedule of "
                     "the resampling randomness: offset sweep over a grid plus all (k+u)/N boundaries +- 1e-4, complete outcome tree of "
@@ -123,6 +136,8 @@ META = {
 
 DST = "deterministic simulation with fault injection"
 CLAIMS = {
+    "C18": dict(text="history refinement: chain(kernel) under a script vs a Python-loop fold of the same kernel under the same script, for seeded (n_steps, burn_in, thinning, n_chains) and kernels; REAL thinned run vs slice of the un-thinned run bit for bit",
+                ref="DESIGN.md 4 C18", note="script-identical randomness is provided by the SCRIPTED seam; sampled grids", technique=DST + " (SCRIPTED randomness seam, recorded iterate history vs fold)"),
     "C12": dict(text="the resampling randomness is a schedule decision: systematic offsets swept over a grid and all cell boundaries, categorical index vectors enumerated completely for N<=4; copy faithfulness, weight reset, lml conservation, floor/ceil copies and exact expected copies checked per script",
                 ref="DESIGN.md 4 C12", note="float32 cumsum tolerance 1e-4 in N*w; sampled weight vectors", technique=DST + " (SCRIPTED randomness seam: offset sweep + outcome tree)"),
     "C01": dict(text="seeded search over generated programs and operation histories; every simulate/assess compared with an independent reference PPL; small discrete programs covered by complete outcome trees (simulated distribution == assessed density outcome by outcome)",
